@@ -360,6 +360,8 @@ pub enum Datum {
     ArrList(Vec<i32>),
     /// Vec<u16> list
     VecList(Vec<u16>),
+    /// Vec<Character> list (items may be empty)
+    ChrList(Vec<String>),
 }
 
 #[derive(Clone, Copy, Debug, PartialEq, Eq, Serialize, Deserialize, Default)]
@@ -537,6 +539,10 @@ pub struct Config {
     /// plain IEEE 488.2 wiring: `stb()` is the trait's default method instead of `scpi_stb()`
     #[serde(default, skip_serializing_if = "is_false")]
     pub plain488: bool,
+    /// the interface never reports message-available: Context.mav is left alone (false) and the
+    /// same Context is reused for every message of a controller
+    #[serde(default, skip_serializing_if = "is_false")]
+    pub no_mav: bool,
 }
 
 fn is_false(b: &bool) -> bool {
